@@ -184,9 +184,20 @@ func rc1(w *World, r *EngineResult) {
 						}
 					}
 				}
-				e0 := aenv{}
-				e0[c0] = vInt('\n')
-				walk(b0, nil, e0, i0+1)
+				// one walk per calling context: the constants the call sites pass for the
+				// parameters (a follower set, a rule) decide which way the tests go
+				for _, ctx := range constContexts(w, fn) {
+					e0 := aenv{}
+					for p, v := range ctx {
+						e0[p] = v
+					}
+					e0[c0] = vInt('\n')
+					visited = map[string]bool{}
+					walk(b0, nil, e0, i0+1)
+					if len(bad) > 0 {
+						break
+					}
+				}
 				if len(bad) > 0 {
 					r.violated("RC1", fnKey(fn), construct, "a newline read here can be swallowed: "+strings.Join(bad, "; ")+" — every later row would be off by one", pos)
 				} else {
@@ -444,4 +455,46 @@ func paramConstSet(w *World, fn *ssa.Function, prm *ssa.Parameter) (map[int64]bo
 		}
 	}
 	return out, true
+}
+
+
+// constContexts: the bindings of fn's parameters to constants, one per call site, for the
+// parameters that receive a constant there. A function without callers in the module, or
+// with a caller that is not a static call, gets the single empty context as well.
+func constContexts(w *World, fn *ssa.Function) []map[ssa.Value]Val {
+	empty := []map[ssa.Value]Val{{}}
+	n := w.CallGraph().Nodes[fn]
+	if n == nil || len(n.In) == 0 {
+		return empty
+	}
+	seen := map[string]bool{}
+	var out []map[ssa.Value]Val
+	for _, in := range n.In {
+		site, ok := in.Site.(*ssa.Call)
+		if !ok || site.Call.StaticCallee() != fn {
+			return empty
+		}
+		ctx := map[ssa.Value]Val{}
+		var parts []string
+		for i, p := range fn.Params {
+			if i >= len(site.Call.Args) {
+				continue
+			}
+			if k, ok := site.Call.Args[i].(*ssa.Const); ok {
+				if v := constVal(k); v.k == kInt || v.k == kStr || v.k == kBool {
+					ctx[p] = v
+					parts = append(parts, fmt.Sprintf("%d=%s", i, v))
+				}
+			}
+		}
+		key := strings.Join(parts, ",")
+		if !seen[key] {
+			seen[key] = true
+			out = append(out, ctx)
+		}
+		if len(out) > 12 {
+			return empty
+		}
+	}
+	return out
 }
